@@ -4,7 +4,7 @@ from __future__ import annotations
 import ast
 
 from ..core import Run, AnalysisError, dotted, norm
-from ..alg import T, num, var, op, fun, normalize, Rat, C
+from ..alg import T, num, var, op, fun, normalize, Rat, C, same
 from ..reader import ExprReader, system_branches, SYSTEMS
 from ..dim import World
 from ..flow import Fn
@@ -109,7 +109,7 @@ def check(run: Run) -> None:
             raise AnalysisError(f"C12: gradient/{system} is not a 3-component vector")
         for i, (a, b) in enumerate(zip(g, ref_grad(f, system))):
             run.ob("O1", f"grad/{system}[{i}]")
-            if not normalize(a).eq(normalize(b)):
+            if not same(normalize(a), normalize(b)):
                 run.violate("O1", f"{MOD}:gradient_operator:{system}[{i}]", mod, grad,
                             f"component {i} ({coords[i]}) of the {system.lower()} gradient is {normalize(a)!r}; the reference d f/d{coords[i]} / h_{i} is {normalize(b)!r}")
         # O2
@@ -117,7 +117,7 @@ def check(run: Run) -> None:
         run.ob("O2", f"div/{system}")
         if not isinstance(d, T):
             raise AnalysisError(f"C12: divergence/{system} is not a scalar")
-        if not normalize(d).eq(normalize(ref_div(F, system))):
+        if not same(normalize(d), normalize(ref_div(F, system))):
             run.violate("O2", f"{MOD}:divergence_operator:{system}", mod, div,
                         f"the {system.lower()} divergence differs from the reference: got {normalize(d)!r}, reference {normalize(ref_div(F, system))!r}")
         # O3
@@ -126,18 +126,18 @@ def check(run: Run) -> None:
             raise AnalysisError(f"C12: curl/{system} is not a 3-component vector")
         for i, (a, b) in enumerate(zip(c, ref_curl(F, system))):
             run.ob("O3", f"curl/{system}[{i}]")
-            if not normalize(a).eq(normalize(b)):
+            if not same(normalize(a), normalize(b)):
                 run.violate("O3", f"{MOD}:curl_operator:{system}[{i}]", mod, curl,
                             f"component {i} ({coords[i]}) of the {system.lower()} curl is {normalize(a)!r}; the reference is {normalize(b)!r}")
         # O4: compose the repository's own formulas
         cg = apply_operator(curl, system, {"field_components": g})
         for i, a in enumerate(cg):
             run.ob("O4", f"curl(grad)/{system}[{i}]")
-            if not normalize(a).is_zero():
+            if not same(normalize(a), C(0)):
                 run.violate("O4", f"{MOD}:curl(grad):{system}[{i}]", mod, curl, f"curl(grad f) has non-zero component {i} in {system.lower()} coordinates: {normalize(a)!r}")
         dc = apply_operator(div, system, {"field_components": c})
         run.ob("O4", f"div(curl)/{system}")
-        if not normalize(dc).is_zero():
+        if not same(normalize(dc), C(0)):
             run.violate("O4", f"{MOD}:div(curl):{system}", mod, div, f"div(curl F) is not zero in {system.lower()} coordinates: {normalize(dc)!r}")
         run.sample({"system": system, "gradient": [repr(normalize(x)) for x in g], "divergence": repr(normalize(d))})
     # O5 padding
